@@ -185,10 +185,10 @@ SANFLAGS = "-std=c++17 -O1 -g -DNDEBUG -march=native -fopenmp -fno-access-contro
 def repo_hash():
     return tree_hash([os.path.join(REPO, "include"), os.path.join(REPO, "c-interface")])
 
-def build_harness(targets, san=False, flags=None):
+def build_harness(targets, san=False, flags=None, cxx="g++"):
     """targets: list of (exe_name, source, extra_flags). Returns dict exe_name -> path (None if build failed), log"""
     with Lock("harness"):
-        hv = tree_hash([os.path.join(ROOT, "harness")], repo_hash() + ("san" if san else "") + (flags or ""))
+        hv = tree_hash([os.path.join(ROOT, "harness")], repo_hash() + ("san" if san else "") + (flags or "") + cxx)
         d = os.path.join(BUILD, ("hsan-" if san else "h-") + hv)
         os.makedirs(d, exist_ok=True)
         procs, out, log = [], {}, ""
@@ -196,7 +196,7 @@ def build_harness(targets, san=False, flags=None):
             exe = os.path.join(d, name)
             out[name] = exe
             if os.path.exists(exe): continue
-            cmd = "g++ %s %s -I%s/include -I%s/c-interface -I%s/harness %s -o %s.tmp && mv %s.tmp %s" % (
+            cmd = cxx + " %s %s -I%s/include -I%s/c-interface -I%s/harness %s -o %s.tmp && mv %s.tmp %s" % (
                 flags or (SANFLAGS if san else CXXFLAGS), extra, REPO, REPO, ROOT, os.path.join(ROOT, "harness", src), exe, exe, exe)
             procs.append((name, subprocess.Popen(cmd, shell=True, stdout=subprocess.PIPE, stderr=subprocess.STDOUT, text=True)))
         for name, p in procs:
